@@ -289,7 +289,7 @@ func mutate(t *rapid.T, s string, big bool) (string, string) {
 	pos := func() int {
 		return max(rapid.IntRange(0, len(s)).Draw(t, "pos"), rapid.IntRange(0, len(s)).Draw(t, "pos2"))
 	}
-	switch k := rapid.IntRange(0, 17).Draw(t, "mk"); k {
+	switch k := rapid.IntRange(0, 18).Draw(t, "mk"); k {
 	case 0: // delete a byte
 		if len(s) == 0 {
 			return s, "noop"
@@ -388,6 +388,26 @@ func mutate(t *rapid.T, s string, big bool) (string, string) {
 		n := rapid.IntRange(1, 3000).Draw(t, "depth")
 		i := boundary(t, s)
 		return s[:i] + strings.Repeat("(", n) + " x " + strings.Repeat(")", rapid.IntRange(0, n).Draw(t, "close")) + s[i:], fmt.Sprintf("parens depth=%d", n)
+	case 17: // delete one character next to an inner separator of a token (":x", "k=", "/24" ...)
+		var idx []int
+		for i := 0; i < len(s); i++ {
+			if strings.IndexByte(":=/,!-+@.", s[i]) >= 0 {
+				idx = append(idx, i)
+			}
+		}
+		if len(idx) == 0 {
+			return s, "noop"
+		}
+		i := idx[rapid.IntRange(0, len(idx)-1).Draw(t, "sepi")]
+		if rapid.Bool().Draw(t, "before") {
+			i--
+		} else {
+			i++
+		}
+		if i < 0 || i >= len(s) {
+			return s, "noop"
+		}
+		return s[:i] + s[i+1:], fmt.Sprintf("delete-near-separator @%d", i)
 	case 16: // a run of directive lines with no record between them
 		n := rapid.IntRange(200, 3000).Draw(t, "run")
 		if big {
@@ -1256,7 +1276,9 @@ type typeFaultCase struct {
 	Sample string
 	Fault  string // "close-end", "close-mid", "quote-end", "open-end", "close-open-end"
 	Text   string `json:",omitempty"` // rendered text (rapid variant); empty = canonical
-	Tail   int    `json:",omitempty"` // 0 = two records follow; 1 = last line of the input; 2 = the same without newline
+	Tail   int    `json:",omitempty"` // 0 = two records follow; 1 = last line of the input; 2 = the same without newline; 3 (sub-token) = inside parentheses over several lines
+	Tok    int    `json:",omitempty"` // Fault "sub-token": which RDATA token
+	Var    int    `json:",omitempty"` // ... and which of its variants
 }
 
 var typeFaults = []string{"close-end", "close-mid", "quote-end", "open-end", "close-open-end", "quote-mid"}
@@ -1297,6 +1319,16 @@ func faultText(c typeFaultCase) (string, bool) {
 }
 
 func checkTypeFault(c typeFaultCase) error {
+	if c.Fault == "sub-token" {
+		text, ok := subFaultText(c)
+		if !ok {
+			pbt.Note(nil, false, "invalid-case")
+			return nil
+		}
+		pbt.Note([]byte(text), true, "type-fault:"+c.Sample, "fault:sub-token", fmt.Sprintf("type-fault:tail=%d", c.Tail))
+		c.Tail = 0
+		return evalTypeFault(c, text)
+	}
 	text, ok := faultText(c)
 	if !ok {
 		pbt.Note(nil, false, "invalid-case")
@@ -1335,7 +1367,65 @@ func evalTypeFault(c typeFaultCase, text string) error {
 	return nil
 }
 
+// subTokenVariants: RDATA tokens with inner structure (family:address/prefix, key=value, lists
+// with commas, dotted and dashed forms) with an empty part next to each inner separator: the part
+// before it dropped, the part behind it dropped, the separator doubled, the separator alone.
+func subTokenVariants(tok string) []string {
+	if tok == "" || tok[0] == '"' {
+		return nil
+	}
+	seen := map[string]bool{tok: true}
+	var out []string
+	add := func(v string) {
+		if v != "" && !seen[v] {
+			seen[v] = true
+			out = append(out, v)
+		}
+	}
+	for i := 0; i < len(tok); i++ {
+		if strings.IndexByte(":=/,!.-+@", tok[i]) < 0 {
+			continue
+		}
+		add(tok[i:])
+		add(tok[:i+1])
+		add(tok[:i+1] + tok[i:])
+		add(tok[i : i+1])
+		if i+1 < len(tok) {
+			add(tok[:i] + tok[i+1:]) // the separator itself dropped
+		}
+	}
+	return out
+}
+
+// subFaultText: sample with token number Tok replaced by its variant number Var.
+func subFaultText(c typeFaultCase) (string, bool) {
+	sm, ok := zm.SampleByName(c.Sample)
+	if !ok || c.Tok < 0 || c.Tok >= len(sm.Tokens) {
+		return "", false
+	}
+	vs := subTokenVariants(sm.Tokens[c.Tok])
+	if c.Var < 0 || c.Var >= len(vs) {
+		return "", false
+	}
+	toks := append([]string(nil), sm.Tokens...)
+	toks[c.Tok] = vs[c.Var]
+	line := "first.example.org. 300 IN " + sm.Name + " " + strings.Join(toks, " ")
+	if c.Tail == 3 {
+		// inside parentheses, spread over lines
+		line = "first.example.org. 300 IN " + sm.Name + " (\n " + strings.Join(toks, "\n ") + "\n )"
+	}
+	return line + "\nnext.example.org. 600 IN A 192.0.2.1\nlast.example.org. 600 IN A 192.0.2.2\n", true
+}
+
 func eachTypeFault(emit func(typeFaultCase)) {
+	for _, sm := range zm.Samples {
+		for ti, tok := range sm.Tokens {
+			for vi := range subTokenVariants(tok) {
+				emit(typeFaultCase{Sample: sm.Name, Fault: "sub-token", Tok: ti, Var: vi})
+				emit(typeFaultCase{Sample: sm.Name, Fault: "sub-token", Tok: ti, Var: vi, Tail: 3})
+			}
+		}
+	}
 	for _, sm := range zm.Samples {
 		for _, f := range typeFaults {
 			if (f == "close-mid" || f == "quote-mid") && len(sm.Tokens) < 2 {
